@@ -14,6 +14,10 @@ static void one_size(size_t n, ShadowHeap& h) {
     h.add(p, n, natural_align(n), "scalable_malloc"); if (scalable_msize(p) < n) vf_fail("scalable_msize %zu < requested %zu", scalable_msize(p), n);
     void* c = n <= (1u << 26) ? scalable_calloc(n ? 1 : 0, n) : nullptr; if (c) { for (size_t i = 0; i < n; i++) if (((unsigned char*)c)[i]) vf_fail("scalable_calloc(%zu) not zero-filled at %zu", n, i); h.add(c, n, natural_align(n), "scalable_calloc"); }
     h.check_all("after calloc");
+    // calloc must also zero a block that comes back from a cache with its old contents: dirty a block of this size, free it, calloc again
+    if (n && n <= (1u << 26)) { unsigned char* d = (unsigned char*)scalable_malloc(n); if (!d) vf_fail("scalable_malloc(%zu) failed", n); memset(d, 0xA5, n); scalable_free(d);
+        unsigned char* z = (unsigned char*)scalable_calloc(1, n); if (!z) vf_fail("scalable_calloc(1,%zu) failed", n); for (size_t i = 0; i < n; i++) if (z[i]) vf_fail("scalable_calloc(1,%zu) returned a recycled block that is not zero-filled (byte 0x%02x at offset %zu)", n, z[i], i);
+        h.add(z, n, natural_align(n), "scalable_calloc"); h.check_all("after calloc of a recycled block"); h.take(z, "free"); scalable_free(z); }
     // realloc grow and shrink keep the prefix
     ShadowHeap::Blk b = h.take(p, "realloc"); size_t n2 = n + n / 2 + 1; void* q = scalable_realloc(p, n2);
     if (q) { if (!ShadowHeap::intact((unsigned char*)q, b.n, b.pat, b.n < n2 ? b.n : n2)) vf_fail("scalable_realloc(%zu -> %zu) lost the old contents", n, n2); h.add(q, n2, 0, "scalable_realloc"); p = q; } else { h.live[(unsigned char*)p] = b; }
